@@ -23,7 +23,7 @@ LEVEL = "fault_enumeration"
 RULE = ("fault vectors over pipeline shapes: 1-3 inputs x last stage in {preprocess, compile, codegen, assemble, link}; per stage "
         "instance a behaviour from {ok, command missing, exit 1 before reading, exit 1 after writing half its output, exit 1 after "
         "finishing, SIGSEGV, SIGKILL} and a delay in {0,20,60,150 ms} before it exits; optionally the other stages of the failing "
-        "pipeline are slow (3 s, must be terminated by the driver). Source 'single' enumerates every (shape, stage instance, fault "
+        "pipeline are slow (1 s, must be terminated by the driver). Source 'single' enumerates every (shape, stage instance, fault "
         "kind) with one fault, each with fast and with slow neighbours; source 'multi' draws multi-fault vectors, delays, input "
         "types, output sizes (up to 200 kB, larger than a pipe) with Hypothesis. Oracle: any fault => exit status > 0, linker not "
         "started unless every fault is in the link step, no output of the failing or later pipelines and no /tmp/cproc-* named in "
@@ -42,7 +42,7 @@ TRIPLE = "x86_64-linux-gnu"
 KINDS = ["missing", "fail-before", "fail-half", "fail-after", "segv", "kill"]
 NONREADING = ("missing", "fail-before", "kill")
 DELAYS = [0, 20, 60, 150]
-HOLD_MS = 3000
+HOLD_MS = 1000
 HANG_S = 20
 LAST_MODE = {"pp": "E", "cc": "emit-qbe", "qbe": "S", "as": "c", "ld": "link"}
 MODE_ARG = {"E": ["-E"], "emit-qbe": ["-emit-qbe"], "S": ["-S"], "c": ["-c"], "link": []}
@@ -125,7 +125,7 @@ def vector(case):
             first = i
             break
     if case.get("hold") and first is not None:
-        # Other stages of the failing pipeline sleep 3 s before they exit; the driver has to terminate them.
+        # Other stages of the failing pipeline sleep HOLD_MS before they exit; the driver has to terminate them.
         # Only where the fault does not depend on the slow stage: downstream of the first fault always;
         # upstream only if some fault of the pipeline happens without reading input.
         stages = pipes[first][2]
